@@ -70,10 +70,10 @@ theorem addText_fresh (hf : Fresh h) (hs : s < (h.next : Nat)) : Fresh (addText 
   have h2 : n ≠ h.next := by omegaId
   rw [addText_kids_other h s txt n h1 h2]
   exact hf n (by omegaId)
-theorem addText_noAttr2 (hb : NoAttr2 h) : NoAttr2 (addText h s txt) := by
-  intro n; simp only [addText, putAt, upd]; split
-  · rfl
-  · exact hb n
+theorem addText_attr2_old (n : Nat) (hn : n ≠ h.next) : (addText h s txt).attr2 n = h.attr2 n := by
+  simp [addText, putAt, upd, hn]
+theorem addText_attr2_new : (addText h s txt).attr2 h.next = none := by
+  simp [addText, putAt, upd]
 end addText
 
 theorem addText_closed {h : Heap} (hc : Closed h h.next) (s : Nat) (txt : List Nat) (hs : s < (h.next : Nat)) :
@@ -116,17 +116,80 @@ theorem putAt_closed {h : Heap} (hc : Closed h h.next) (s k y : Nat) (hy : y < (
     · exact hc n hn c hm
   · rw [putAt_kids_other h s k y n hns] at hcm; exact hc n hn c hcm
 
+/-- the merged text node is a fresh leaf appended to `s`: the invariant is kept -/
+theorem inv_addText {h : Heap} (hi : Inv h) (hc : Closed h h.next) (hf : Fresh h) (s : Nat) (txt : List Nat) :
+    Inv (addText h s txt) := by
+  unfold addText
+  obtain ⟨i1, i2⟩ := hi
+  have hlt : ∀ n c : Nat, c ∈ h.kids n → n < (h.next : Nat) ∧ c < (h.next : Nat) := by
+    intro n c hm
+    have hn : n < (h.next : Nat) := by
+      apply Nat.lt_of_not_le; intro hle
+      rw [hf n hle] at hm; cases hm
+    exact ⟨hn, (hc n hn c hm).1⟩
+  apply inv_putAt
+  · refine ⟨?_, ?_⟩
+    · intro n c hn hm
+      simp only [upd] at hn hm ⊢
+      by_cases hnv : n = h.next
+      · simp [hnv] at hm
+      · simp only [hnv, if_false] at hn hm
+        have hcv : c ≠ h.next := by have := (hlt n c hm).2; omegaId
+        simp only [hcv, if_false]
+        exact i1 n c hn hm
+    · intro n hn
+      simp only [upd] at hn ⊢
+      by_cases hnv : n = h.next
+      · simp [hnv]
+      · simp only [hnv, if_false] at hn ⊢; exact i2 n hn
+  · intro n _ hm
+    simp only [upd] at hm
+    by_cases hnv : n = h.next
+    · simp [hnv] at hm
+    · simp only [hnv, if_false] at hm
+      have := (hlt n _ hm).2
+      omegaId
+
+theorem inv_clearKids {h : Heap} (hi : Inv h) (s : Nat) : Inv (clearKids h s) := by
+  obtain ⟨i1, i2⟩ := hi
+  refine ⟨?_, ?_⟩
+  · intro n c hn hm
+    simp only [clearKids, upd] at hn hm ⊢
+    by_cases hns : n = s
+    · simp [hns] at hm
+    · simp only [hns, if_false] at hm
+      have hp := i1 n c hn hm
+      have : ¬ (h.parent c = some s) := by rw [hp]; intro e; exact hns (Option.some.inj e)
+      simp [hp]
+      intro _ e; exact hns e
+  · intro n hn
+    simp only [clearKids, upd] at hn ⊢
+    by_cases hns : n = s
+    · simp [hns]
+    · simp only [hns, if_false]; exact i2 n hn
+
 /-- the loop body of `normalize` -/
 def normStep (f : Nat) (s : Nat) (a : Heap × List Nat) (item : Nat) : Heap × List Nat :=
   if a.1.kind item = .text then (a.1, a.2 ++ [item])
   else (normalize f (append (fuelOf (appendText a.1 s a.2)) (appendText a.1 s a.2) s item) item, [])
 
-theorem normalize_succ_eq (f : Nat) {h : Heap} (ha : NoAlias h) (hb : NoAttr2 h) (s : Nat) (hk : h.kind s ≠ .text) :
-    normalize (f + 1) h s =
-      appendText ((h.kids s).foldl (normStep f s) (clearKids h s, [])).1 s
-        ((h.kids s).foldl (normStep f s) (clearKids h s, [])).2 := by
+/-- the pop-all-then-rebuild loop of `Node.normalize` on `s` -/
+def loopRes (f : Nat) (h : Heap) (s : Nat) : Heap :=
+  appendText ((h.kids s).foldl (normStep f s) (clearKids h s, [])).1 s
+    ((h.kids s).foldl (normStep f s) (clearKids h s, [])).2
+
+theorem normalize_succ_eq (f : Nat) {h : Heap} (ha : NoAlias h) (s : Nat) (hb : h.attr2 s = none) (hk : h.kind s ≠ .text) :
+    normalize (f + 1) h s = loopRes f h s := by
   rw [normalize]
-  simp only [hk, if_false, ha s, hb s, childList_eq ha, cn_eq ha]
+  simp only [hk, if_false, ha s, hb, childList_eq ha, cn_eq ha]
+  rfl
+
+/-- with a fragment under another attribute key: that fragment is normalised first, then the loop runs -/
+theorem normalize_succ_eq2 (f : Nat) {h : Heap} (ha : NoAlias h) (s f2 : Nat) (hb : h.attr2 s = some f2)
+    (hk : h.kind s ≠ .text) (ha0 : NoAlias (normalize f h f2)) :
+    normalize (f + 1) h s = loopRes f (normalize f h f2) s := by
+  rw [normalize]
+  simp only [hk, if_false, ha s, hb, childList_eq ha0, cn_eq ha0]
   rfl
 
 /-! ### facts about unfolded trees -/
@@ -190,9 +253,13 @@ def SameLab (h a : Heap) (n : Nat) : Prop := a.kind n = h.kind n ∧ a.text n = 
 /-- state of the loop over `nodes = h.kids s`: `a` the heap, `txt` the pending text nodes, `rest` the items to come -/
 structure FI (f : Nat) (h : Heap) (s : Nat) (a : Heap) (txt rest : List Nat) : Prop where
   noAlias : NoAlias a
-  noAttr2 : NoAttr2 a
+  attr2old : ∀ n : Nat, n < (h.next : Nat) → a.attr2 n = h.attr2 n
+  attr2none : ∀ n : Nat, h.attr2 n = none → a.attr2 n = none
   owned : Owned h → Owned a
   fresh : Fresh h → Fresh a
+  sub : ∀ n c : Nat, n < (h.next : Nat) → c < (h.next : Nat) → c ∈ a.kids n → c ∈ h.kids n
+  leaf : Fresh h → ∀ n : Nat, (h.next : Nat) ≤ n → a.kids n = []
+  inv : Inv h → Fresh h → h.kind s ≠ .frag → Inv a
   closed : Closed a a.next
   next_le : (h.next : Nat) ≤ a.next
   labels : ∀ n : Nat, n < (h.next : Nat) → SameLab h a n
@@ -210,7 +277,7 @@ structure FI (f : Nat) (h : Heap) (s : Nat) (a : Heap) (txt rest : List Nat) : P
 /-- the fixed side conditions of the loop -/
 structure Side (f : Nat) (h : Heap) (s : Nat) : Prop where
   noAlias : NoAlias h
-  noAttr2 : NoAttr2 h
+  loc : ∀ n ∈ idsL ((h.kids s).map (abs f (toLL h))), h.attr2 n = none
   closed : Closed h h.next
   slt : s < (h.next : Nat)
   snot : s ∉ idsL ((h.kids s).map (abs f (toLL h)))
@@ -227,7 +294,7 @@ theorem fi_text {f : Nat} {h : Heap} {s : Nat} {a : Heap} {txt rest : List Nat} 
     FI f h s a (txt ++ [t]) rest := by
   have ht := side_item sd (hsub t (by simp))
   have hkt : (toLL h).kind t = .text := by simp [hk, kindOf]
-  refine ⟨inv.noAlias, inv.noAttr2, inv.owned, inv.fresh, inv.closed, inv.next_le, inv.labels, ?_, inv.otherKids, ?_, ?_, ?_⟩
+  refine ⟨inv.noAlias, inv.attr2old, inv.attr2none, inv.owned, inv.fresh, inv.sub, inv.leaf, inv.inv, inv.closed, inv.next_le, inv.labels, ?_, inv.otherKids, ?_, ?_, ?_⟩
   · intro i hi
     exact inv.restKids i (by rw [idsL_map_cons]; exact List.mem_append_right _ hi)
   · intro u hu
@@ -275,9 +342,33 @@ theorem fi_flush {f : Nat} {h : Heap} {s : Nat} {a : Heap} {txt rest : List Nat}
       obtain ⟨h1, _, h3, _⟩ := inv.outIds g hg i (mem_idsL_map hc hi)
       have hiv : i ≠ a.next := by omegaId
       exact sameAt_of (addText_kids_other a s txt i h1 hiv) (addText_labels a s txt i hiv)
-    refine ⟨addText_noAlias a s txt inv.noAlias, addText_noAttr2 a s txt inv.noAttr2,
+    refine ⟨addText_noAlias a s txt inv.noAlias,
+      (fun n hn => by rw [addText_attr2_old a s txt n (by have := inv.next_le; omegaId)]; exact inv.attr2old n hn),
+      (fun n hn => by
+        by_cases hnv : n = a.next
+        · rw [hnv]; exact addText_attr2_new a s txt
+        · rw [addText_attr2_old a s txt n hnv]; exact inv.attr2none n hn),
       fun ho => addText_owned a s txt (inv.owned ho) hsv,
-      fun hf => addText_fresh a s txt (inv.fresh hf) (by have := sd.slt; have := inv.next_le; omegaId), addText_closed inv.closed s txt (by have := sd.slt; have := inv.next_le; omegaId),
+      fun hf => addText_fresh a s txt (inv.fresh hf) (by have := sd.slt; have := inv.next_le; omegaId),
+      (by
+        intro n c hn hc hm
+        have hnv : n ≠ a.next := by have := inv.next_le; omegaId
+        by_cases hns : n = s
+        · subst hns
+          rw [hks] at hm
+          rcases List.mem_append.mp hm with hm | hm
+          · exact inv.sub n c hn hc hm
+          · simp only [List.mem_singleton] at hm
+            have := inv.next_le; omegaId
+        · rw [addText_kids_other a s txt n hns hnv] at hm; exact inv.sub n c hn hc hm),
+      (by
+        intro hf n hn
+        by_cases hnv : n = a.next
+        · rw [hnv]; exact addText_kids_v a s txt hsv
+        · have hns : n ≠ s := by have := sd.slt; omegaId
+          rw [addText_kids_other a s txt n hns hnv]; exact inv.leaf hf n hn),
+      (fun hi hf hk => inv_addText (inv.inv hi hf hk) inv.closed (inv.fresh hf) s txt),
+      addText_closed inv.closed s txt (by have := sd.slt; have := inv.next_le; omegaId),
       by rw [addText_next]; have := inv.next_le; omegaId, ?_, ?_, ?_, ?_, ?_, ?_⟩
     · intro n hn
       have hnv : n ≠ a.next := by have := inv.next_le; omegaId
@@ -316,9 +407,13 @@ theorem fi_flush {f : Nat} {h : Heap} {s : Nat} {a : Heap} {txt rest : List Nat}
 
 structure NormSpec (f : Nat) (h : Heap) (s : Nat) (h' : Heap) : Prop where
   noAlias : NoAlias h'
-  noAttr2 : NoAttr2 h'
+  attr2old : ∀ n : Nat, n < (h.next : Nat) → h'.attr2 n = h.attr2 n
+  attr2none : ∀ n : Nat, h.attr2 n = none → h'.attr2 n = none
   owned : Owned h → Owned h'
   fresh : Fresh h → Fresh h'
+  sub : ∀ n c : Nat, n < (h.next : Nat) → c < (h.next : Nat) → c ∈ h'.kids n → c ∈ h.kids n
+  leaf : Fresh h → ∀ n : Nat, (h.next : Nat) ≤ n → h'.kids n = []
+  inv : Inv h → Fresh h → h.kind s ≠ .frag → Inv h'
   closed : Closed h' h'.next
   next_le : (h.next : Nat) ≤ h'.next
   labels : ∀ n : Nat, n < (h.next : Nat) → SameLab h h' n
@@ -330,7 +425,8 @@ structure NormSpec (f : Nat) (h : Heap) (s : Nat) (h' : Heap) : Prop where
 /-- the hypotheses under which `normalize f h s` is specified: well-formed heap, allocated root, and the unfolding of
     `s` to depth `f` repeats no node (the part of the heap below `s` is a tree) -/
 def NormPre (f : Nat) (h : Heap) (s : Nat) : Prop :=
-  NoAlias h ∧ NoAttr2 h ∧ Closed h h.next ∧ s < (h.next : Nat) ∧ (abs f (toLL h) s).ids.Nodup
+  NoAlias h ∧ (∀ n ∈ (abs f (toLL h) s).ids, h.attr2 n = none) ∧ Closed h h.next ∧ s < (h.next : Nat) ∧
+    (abs f (toLL h) s).ids.Nodup
 
 theorem fi_node {f : Nat}
     (ih : ∀ (h : Heap) (s : Nat), NormPre f h s → NormSpec f h s (normalize f h s))
@@ -367,7 +463,12 @@ theorem fi_node {f : Nat}
     intro i hi
     exact ysame i (ids_abs_mono (toLL h) g f hg y i hi)
   have pre : NormPre f (putAt a s (a.kids s).length y) y :=
-    ⟨ha2, fun n => inv.noAttr2 n, hc2, hya, by rw [yabs f (Nat.le_refl _)]; exact hndy⟩
+    ⟨ha2, (by
+        intro n hn
+        rw [yabs f (Nat.le_refl _)] at hn
+        have h1 := (hy.2.2 n hn)
+        show a.attr2 n = none
+        rw [inv.attr2old n h1.1]; exact sd.loc n h1.2.2), hc2, hya, by rw [yabs f (Nat.le_refl _)]; exact hndy⟩
   have spec := ih _ y pre
   generalize normalize f (putAt a s (a.kids s).length y) y = a3 at spec ⊢
   have hn23 : ((putAt a s (a.kids s).length y).next : Nat) = a.next := rfl
@@ -390,8 +491,47 @@ theorem fi_node {f : Nat}
     have hn' : (a.next : Nat) ≤ n := hn
     rw [k2o n (by have := sd.slt; have := inv.next_le; omegaId)]
     exact hf n hn'
-  refine ⟨spec.noAlias, spec.noAttr2, fun ho => spec.owned (owned_putAt (inv.owned ho) _ _ _),
-    fun hf => spec.fresh (fresh2 (inv.fresh hf)), spec.closed,
+  refine ⟨spec.noAlias,
+    (fun n hn => by rw [spec.attr2old n (by have := inv.next_le; omegaId)]; exact inv.attr2old n hn),
+    (fun n hn => spec.attr2none n (inv.attr2none n hn)),
+    fun ho => spec.owned (owned_putAt (inv.owned ho) _ _ _),
+    fun hf => spec.fresh (fresh2 (inv.fresh hf)),
+    (by
+      intro n c hn hc hm
+      have hm2 := spec.sub n c (by have := inv.next_le; omegaId) (by have := inv.next_le; omegaId) hm
+      by_cases hns : n = s
+      · subst hns
+        rw [k2s] at hm2
+        rcases List.mem_append.mp hm2 with hm2 | hm2
+        · exact inv.sub n c hn hc hm2
+        · simp only [List.mem_singleton] at hm2; subst hm2; exact hsub c (by simp)
+      · rw [k2o n hns] at hm2; exact inv.sub n c hn hc hm2),
+    (by
+      intro hf n hn
+      by_cases hna : n < (a.next : Nat)
+      · have hiy : n ∉ (abs f (toLL h) y).ids := fun hm => by have := (hy.2.2 n hm).1; omegaId
+        have hns : n ≠ s := by have := sd.slt; omegaId
+        rw [frame3 n hna hiy, k2o n hns]; exact inv.leaf hf n hn
+      · exact spec.leaf (fresh2 (inv.fresh hf)) n (by omegaId)),
+    (by
+      intro hi hf hks
+      have hia := inv.inv hi hf hks
+      have hdet : Detached a y := by
+        intro n hn hm
+        by_cases hns : n = s
+        · subst hns
+          have := (inv.outIds 0 (Nat.zero_le _) y (mem_idsL_map hm (abs_ids_root 0 _ y))).2.1
+          exact this (by rw [idsL_map_cons]; exact List.mem_append_left _ (abs_ids_root f _ y))
+        · by_cases hnl : n < (h.next : Nat)
+          · have hmh := inv.sub n y hnl hy.1 hm
+            have hkn : h.kind n ≠ .frag := by rw [← (inv.labels n hnl).1]; exact hn
+            have p1 := hi.1 n y hkn hmh
+            have p2 := hi.1 s y hks (hsub y (by simp))
+            rw [p1] at p2
+            exact hns (Option.some.inj p2)
+          · rw [inv.leaf hf n (Nat.le_of_not_lt hnl)] at hm; cases hm
+      exact spec.inv (inv_putAt hia s _ y hdet) (fresh2 (inv.fresh hf)) hyk),
+    spec.closed,
     by have := spec.next_le; have := inv.next_le; omegaId, ?_, ?_, ?_, ?_, ?_, ?_⟩
   · intro n hn
     obtain ⟨l1, l2, l3⟩ := lab3 n (by have := inv.next_le; omegaId)
@@ -479,13 +619,92 @@ theorem fi_fold {f : Nat}
 
 /-- **`normalize` computes the tree-level normalisation** of the subtree, touches nothing outside it, and keeps the
     heap well-formed -/
+theorem loop_spec {f : Nat}
+    (ih : ∀ (h : Heap) (s : Nat), NormPre f h s → NormSpec f h s (normalize f h s))
+    {h : Heap} {s : Nat} (ha : NoAlias h) (hk : h.kind s ≠ .text)
+    (hbk : ∀ n ∈ idsL ((h.kids s).map (abs f (toLL h))), h.attr2 n = none)
+    (hc : Closed h h.next) (hs : s < (h.next : Nat))
+    (hsnot : s ∉ idsL ((h.kids s).map (abs f (toLL h))))
+    (hndk : (idsL ((h.kids s).map (abs f (toLL h)))).Nodup) :
+    NormSpec (f + 1) h s (loopRes f h s) := by
+  have hky : (toLL h).kind s ≠ .text := by
+    simp only [toLL_kind]; exact fun e => hk ((kindOf_text _).mp e)
+  have sd : Side f h s := ⟨ha, hbk, hc, hs, hsnot⟩
+  unfold loopRes
+  -- the loop
+  have init : FI f h s (clearKids h s) [] (h.kids s) := by
+    refine ⟨fun n => ha n, fun _ _ => rfl, fun _ hn => hn, fun ho n => ho n, ?_, ?_, ?_, fun hi _ _ => inv_clearKids hi s, clearKids_closed hc s, Nat.le_refl _, fun n _ => ⟨rfl, rfl, rfl⟩, ?_, ?_, ?_, ?_, ?_⟩
+    · intro hf n hn
+      have := hf n hn
+      simp only [clearKids, upd]; split
+      · rfl
+      · exact this
+    · intro n c _ _ hm
+      simp only [clearKids, upd] at hm
+      split at hm
+      · cases hm
+      · exact hm
+    · intro hf n hn
+      have := hf n hn
+      simp only [clearKids, upd]; split
+      · rfl
+      · exact this
+    · intro i hi
+      have : i ≠ s := fun e => hsnot (e ▸ hi)
+      simp [clearKids, upd, this]
+    · intro n _ hns _; simp [clearKids, upd, hns]
+    · intro t ht; cases ht
+    · intro g _ i hi; simp [clearKids, upd, idsL] at hi
+    · intro g _; simp [clearKids, upd, shapeL]
+  have fin := fi_fold ih sd (h.kids s) (clearKids h s) [] (fun y hy => hy) hndk init
+  generalize (h.kids s).foldl (normStep f s) (clearKids h s, []) = r at fin ⊢
+  have hfl : ∀ g : Nat, g ≤ f → normalizeL (([] : List Nat).map (abs g (toLL h))) (r.2.flatMap h.text) (!r.2.isEmpty) =
+      flush (r.2.flatMap h.text) (!r.2.isEmpty) ++ normalizeL (([] : List Nat).map (abs g (toLL h))) [] false := by
+    intro g _; simp [normalizeL, flush]
+  have last := fi_flush sd (fun y hy => by cases hy) fin hfl
+  generalize appendText r.1 s r.2 = a at last ⊢
+  obtain ⟨lk, lt, ln⟩ := last.labels s hs
+  have hka : (toLL a).kind s ≠ .text := by simp only [toLL_kind, lk]; exact fun e => hk ((kindOf_text _).mp e)
+  refine ⟨last.noAlias, last.attr2old, last.attr2none, last.owned, last.fresh, last.sub, last.leaf, last.inv, last.closed, last.next_le, last.labels, ?_, ?_, ?_⟩
+  · intro n hn hni
+    rw [abs_succ_node hky f] at hni
+    simp only [Tree.ids, List.mem_cons, not_or, toLL_kids] at hni
+    exact last.otherKids n hn hni.1 hni.2
+  · intro g hg
+    cases g with
+    | zero =>
+      rw [zero_depth_normalize_shape, abs_zero_node hka, abs_zero_node hky]
+      simp [Tree.shape, lk, ln]
+    | succ g =>
+      have hs' := last.outShape g (by omega)
+      simp only [List.map_nil, List.flatMap_nil, List.isEmpty_nil, Bool.not_true, normalizeL, flush_nil_false,
+        shapeL, List.append_nil] at hs'
+      rw [abs_succ_node hka g, abs_succ_node hky g]
+      simp only [Tree.normalize, Tree.shape, toLL_kind, toLL_name, toLL_kids, lk, ln, hs']
+  · intro g hg i hi
+    cases g with
+    | zero =>
+      rw [abs_zero_node hka] at hi
+      simp only [Tree.ids, idsL, List.mem_cons, List.not_mem_nil, or_false] at hi
+      subst hi; exact Or.inl (abs_ids_root _ _ _)
+    | succ g =>
+      rw [abs_succ_node hka g] at hi
+      simp only [Tree.ids, List.mem_cons, toLL_kids] at hi
+      rcases hi with e | hi
+      · subst e; exact Or.inl (abs_ids_root _ _ _)
+      · obtain ⟨_, _, h3, h4⟩ := last.outIds g (by omega) i hi
+        rcases h4 with h4 | h4
+        · left; rw [abs_succ_node hky f]; simp only [Tree.ids, List.mem_cons, toLL_kids]; exact Or.inr h4
+        · exact Or.inr ⟨h4, h3⟩
+
+
 theorem norm_spec : ∀ (f : Nat) (h : Heap) (s : Nat), NormPre f h s → NormSpec f h s (normalize f h s) := by
   intro f
   induction f with
   | zero =>
-    intro h s ⟨ha, hb, hc, hs, _⟩
+    intro h s ⟨ha, _, hc, hs, _⟩
     simp only [normalize]
-    refine ⟨ha, hb, id, id, hc, Nat.le_refl _, fun n _ => ⟨rfl, rfl, rfl⟩, fun n _ _ => rfl, ?_, fun g hg i hi => Or.inl ?_⟩
+    refine ⟨ha, fun _ _ => rfl, fun _ hn => hn, id, id, fun _ _ _ _ hm => hm, fun hf n hn => hf n hn, fun hi _ _ => hi, hc, Nat.le_refl _, fun n _ => ⟨rfl, rfl, rfl⟩, fun n _ _ => rfl, ?_, fun g hg i hi => Or.inl ?_⟩
     · intro g hg
       obtain rfl : g = 0 := by omega
       exact (zero_depth_normalize_shape _ _).symm
@@ -497,7 +716,7 @@ theorem norm_spec : ∀ (f : Nat) (h : Heap) (s : Nat), NormPre f h s → NormSp
     · have hkt : (toLL h).kind s = .text := by simp [hk, kindOf]
       have : normalize (f + 1) h s = h := by rw [normalize]; simp [hk]
       rw [this]
-      refine ⟨ha, hb, id, id, hc, Nat.le_refl _, fun n _ => ⟨rfl, rfl, rfl⟩, fun n _ _ => rfl, ?_, fun g hg i hi => Or.inl ?_⟩
+      refine ⟨ha, fun _ _ => rfl, fun _ hn => hn, id, id, fun _ _ _ _ hm => hm, fun hf n hn => hf n hn, fun hi _ _ => hi, hc, Nat.le_refl _, fun n _ => ⟨rfl, rfl, rfl⟩, fun n _ _ => rfl, ?_, fun g hg i hi => Or.inl ?_⟩
       · intro g _; rw [abs_text hkt g]; simp [Tree.normalize, Tree.shape]
       · rw [abs_text hkt] at hi ⊢; exact hi
     · have hky : (toLL h).kind s ≠ .text := by
@@ -505,62 +724,99 @@ theorem norm_spec : ∀ (f : Nat) (h : Heap) (s : Nat), NormPre f h s → NormSp
       rw [abs_succ_node hky f] at hnd
       simp only [Tree.ids, toLL_kids] at hnd
       obtain ⟨hsnot, hndk⟩ := List.nodup_cons.mp hnd
-      have sd : Side f h s := ⟨ha, hb, hc, hs, hsnot⟩
-      rw [normalize_succ_eq f ha hb s hk]
-      -- the loop
-      have init : FI f h s (clearKids h s) [] (h.kids s) := by
-        refine ⟨fun n => ha n, fun n => hb n, fun ho n => ho n, ?_, clearKids_closed hc s, Nat.le_refl _, fun n _ => ⟨rfl, rfl, rfl⟩, ?_, ?_, ?_, ?_, ?_⟩
-        · intro hf n hn
-          have := hf n hn
-          simp only [clearKids, upd]; split
-          · rfl
-          · exact this
-        · intro i hi
-          have : i ≠ s := fun e => hsnot (e ▸ hi)
-          simp [clearKids, upd, this]
-        · intro n _ hns _; simp [clearKids, upd, hns]
-        · intro t ht; cases ht
-        · intro g _ i hi; simp [clearKids, upd, idsL] at hi
-        · intro g _; simp [clearKids, upd, shapeL]
-      have fin := fi_fold ih sd (h.kids s) (clearKids h s) [] (fun y hy => hy) hndk init
-      generalize (h.kids s).foldl (normStep f s) (clearKids h s, []) = r at fin ⊢
-      have hfl : ∀ g : Nat, g ≤ f → normalizeL (([] : List Nat).map (abs g (toLL h))) (r.2.flatMap h.text) (!r.2.isEmpty) =
-          flush (r.2.flatMap h.text) (!r.2.isEmpty) ++ normalizeL (([] : List Nat).map (abs g (toLL h))) [] false := by
-        intro g _; simp [normalizeL, flush]
-      have last := fi_flush sd (fun y hy => by cases hy) fin hfl
-      generalize appendText r.1 s r.2 = a at last ⊢
-      obtain ⟨lk, lt, ln⟩ := last.labels s hs
-      have hka : (toLL a).kind s ≠ .text := by simp only [toLL_kind, lk]; exact fun e => hk ((kindOf_text _).mp e)
-      refine ⟨last.noAlias, last.noAttr2, last.owned, last.fresh, last.closed, last.next_le, last.labels, ?_, ?_, ?_⟩
-      · intro n hn hni
-        rw [abs_succ_node hky f] at hni
-        simp only [Tree.ids, List.mem_cons, not_or, toLL_kids] at hni
-        exact last.otherKids n hn hni.1 hni.2
-      · intro g hg
-        cases g with
-        | zero =>
-          rw [zero_depth_normalize_shape, abs_zero_node hka, abs_zero_node hky]
-          simp [Tree.shape, lk, ln]
-        | succ g =>
-          have hs' := last.outShape g (by omega)
-          simp only [List.map_nil, List.flatMap_nil, List.isEmpty_nil, Bool.not_true, normalizeL, flush_nil_false,
-            shapeL, List.append_nil] at hs'
-          rw [abs_succ_node hka g, abs_succ_node hky g]
-          simp only [Tree.normalize, Tree.shape, toLL_kind, toLL_name, toLL_kids, lk, ln, hs']
-      · intro g hg i hi
-        cases g with
-        | zero =>
-          rw [abs_zero_node hka] at hi
-          simp only [Tree.ids, idsL, List.mem_cons, List.not_mem_nil, or_false] at hi
-          subst hi; exact Or.inl (abs_ids_root _ _ _)
-        | succ g =>
-          rw [abs_succ_node hka g] at hi
-          simp only [Tree.ids, List.mem_cons, toLL_kids] at hi
-          rcases hi with e | hi
-          · subst e; exact Or.inl (abs_ids_root _ _ _)
-          · obtain ⟨_, _, h3, h4⟩ := last.outIds g (by omega) i hi
-            rcases h4 with h4 | h4
-            · left; rw [abs_succ_node hky f]; simp only [Tree.ids, List.mem_cons, toLL_kids]; exact Or.inr h4
-            · exact Or.inr ⟨h4, h3⟩
+      have hbs : h.attr2 s = none := hb s (abs_ids_root _ _ _)
+      have hbk : ∀ n ∈ idsL ((h.kids s).map (abs f (toLL h))), h.attr2 n = none := by
+        intro n hn
+        apply hb n
+        rw [abs_succ_node hky f]
+        simp only [Tree.ids, List.mem_cons, toLL_kids]
+        exact Or.inr hn
+      rw [normalize_succ_eq f ha s hbs hk]
+      exact loop_spec ih ha hk hbk hc hs hsnot hndk
+
+/-- `normalize` keeps the heap acyclic: the old edges it leaves are original edges, the fresh text nodes are leaves -/
+theorem acyclic_of_normSpec {f : Nat} {h : Heap} {s : Nat} {h' : Heap} (spec : NormSpec f h s h') (hf : Fresh h)
+    (hac : Acyclic h) : Acyclic h' := by
+  obtain ⟨r, hr⟩ := hac
+  refine ⟨fun n => if n < (h.next : Nat) then r n + 1 else 0, ?_⟩
+  intro n c hc
+  by_cases hn : n < (h.next : Nat)
+  · simp only [hn, if_true]
+    by_cases hcn : c < (h.next : Nat)
+    · simp only [hcn, if_true]
+      have := hr n c (spec.sub n c hn hcn hc)
+      omega
+    · simp only [hcn, if_false]; omega
+  · rw [spec.leaf hf n (Nat.le_of_not_lt hn)] at hc; cases hc
+
+/-- `normalize` on an element `e` that holds a fragment `f2` under another attribute key normalises `f2`'s subtree as
+    well (the fragment is normalised first; the rebuild of `e`'s own child list, on a disjoint part of the heap, does
+    not disturb it) -/
+theorem norm_attr2 (f : Nat) (h : Heap) (e f2 : Nat)
+    (ha : NoAlias h) (hc : Closed h h.next) (he : e < (h.next : Nat)) (hf2 : f2 < (h.next : Nat))
+    (hk : h.kind e ≠ .text) (hb : h.attr2 e = some f2)
+    (hb2 : ∀ n ∈ (abs f (toLL h) f2).ids, h.attr2 n = none)
+    (hnd2 : (abs f (toLL h) f2).ids.Nodup)
+    (hbk : ∀ n ∈ idsL ((h.kids e).map (abs f (toLL h))), h.attr2 n = none)
+    (hnde : (abs (f + 1) (toLL h) e).ids.Nodup)
+    (hdisj : ∀ n ∈ (abs f (toLL h) f2).ids, n ∉ (abs (f + 1) (toLL h) e).ids) :
+    (∀ g : Nat, g ≤ f →
+      (abs g (toLL (normalize (f + 1) h e)) f2).shape = (abs g (toLL h) f2).normalize.shape) ∧
+    (∀ g : Nat, g ≤ f + 1 →
+      (abs g (toLL (normalize (f + 1) h e)) e).shape = (abs g (toLL h) e).normalize.shape) := by
+  have spec := norm_spec f h f2 ⟨ha, hb2, hc, hf2, hnd2⟩
+  rw [normalize_succ_eq2 f ha e f2 hb hk spec.noAlias]
+  generalize normalize f h f2 = h0 at spec ⊢
+  have hlt : ∀ i ∈ (abs (f + 1) (toLL h) e).ids, i < (h.next : Nat) := abs_ids_lt hc (f + 1) e he
+  have hsame : ∀ i ∈ (abs (f + 1) (toLL h) e).ids, SameAt (toLL h) (toLL h0) i := by
+    intro i hi
+    have hil := hlt i hi
+    exact sameAt_of (spec.frame i hil (fun hc' => hdisj i hc' hi)) (spec.labels i hil)
+  have hT : abs (f + 1) (toLL h0) e = abs (f + 1) (toLL h) e := abs_congr (f + 1) (toLL h) (toLL h0) e hsame
+  have hky : (toLL h).kind e ≠ .text := by
+    simp only [toLL_kind]; exact fun e' => hk ((kindOf_text _).mp e')
+  obtain ⟨lk, _, _⟩ := spec.labels e he
+  have hk0 : h0.kind e ≠ .text := by rw [lk]; exact hk
+  have hky0 : (toLL h0).kind e ≠ .text := by
+    simp only [toLL_kind]; exact fun e' => hk0 ((kindOf_text _).mp e')
+  have hL : (h0.kids e).map (abs f (toLL h0)) = (h.kids e).map (abs f (toLL h)) := by
+    have := hT
+    rw [abs_succ_node hky f, abs_succ_node hky0 f] at this
+    simp only [toLL_kids] at this
+    injection this
+  rw [abs_succ_node hky f] at hnde
+  simp only [Tree.ids, toLL_kids] at hnde
+  obtain ⟨hsnot, hndk⟩ := List.nodup_cons.mp hnde
+  have he0 : e < (h0.next : Nat) := by have := spec.next_le; omegaId
+  have ls : NormSpec (f + 1) h0 e (loopRes f h0 e) := by
+    apply loop_spec (norm_spec f) spec.noAlias hk0 _ spec.closed he0
+    · rw [hL]; exact hsnot
+    · rw [hL]; exact hndk
+    · intro n hn
+      rw [hL] at hn
+      exact spec.attr2none n (hbk n hn)
+  generalize loopRes f h0 e = L at ls ⊢
+  refine ⟨?_, fun g hg => ?_⟩
+  rotate_left
+  · rw [ls.shape g hg]
+    have : abs g (toLL h0) e = abs g (toLL h) e :=
+      abs_congr g (toLL h) (toLL h0) e (fun i hi => hsame i (ids_abs_mono (toLL h) g (f + 1) hg e i hi))
+    rw [this]
+  intro g hg
+  have : abs g (toLL L) f2 = abs g (toLL h0) f2 := by
+    apply abs_congr g (toLL h0) (toLL L) f2
+    intro i hi
+    have hi0 : i < (h0.next : Nat) ∧ i ∉ (abs (f + 1) (toLL h0) e).ids := by
+      rw [hT]
+      rcases spec.ids g hg i hi with h1 | h1
+      · have := abs_ids_lt hc f f2 hf2 i h1
+        have := spec.next_le
+        exact ⟨by omegaId, hdisj i h1⟩
+      · refine ⟨h1.2, fun hc' => ?_⟩
+        have := hlt i hc'
+        omegaId
+    exact sameAt_of (ls.frame i hi0.1 hi0.2) (ls.labels i hi0.1)
+  rw [this]
+  exact spec.shape g hg
 
 end PlasVerif.Proofs.DomNormalize
